@@ -65,7 +65,8 @@ class Check(c05.Check):
         'rt_nrt_same_trace', 'rt_nrt_same_events', 'step_ordered', 'single_clock_move_ordered',
         'rt_nrt_same_trace_single_clock', 'rt_nrt_same_trace_system_clock',
         'multi_clock_needs_ordered_schedule', 'rgen_isolation', 'rgen_inherited_at_creation',
-        'rgen_creation_is_once', 'deterministic_given_seeds', 'chooseRt_eq_chooseNrt')]
+        'rgen_creation_is_once', 'deterministic_given_seeds', 'chooseRt_eq_chooseNrt',
+        'rand_state_reads_own_generator', 'rand_state_restore_rewinds')]
     N_QUICK = 150
     N_THOROUGH = 3000
     ASSUMPTIONS = c05.Check.ASSUMPTIONS + [
@@ -203,6 +204,20 @@ class Check(c05.Check):
                     k = rng.randrange(len(rts[puller]) + 1)
                     rts[puller][k:k] = ([['draw', rng.randrange(len(FORM_NAMES))] for _ in range(rng.randint(0, 2))]
                                         + [['pull', sub]])
+        if rng.random() < 0.3:
+            # rand_state: saved (from inside the routine or from another routine = outside) and assigned back later;
+            # the draws that followed the save must be handed out again
+            t = rng.randrange(n)
+            ctl = t if rng.random() < 0.35 else rng.randrange(n)
+            if not any(a[0] == 'draw' for a in rts[t]):
+                rts[t] += [['draw', rng.randrange(len(FORM_NAMES))], ['y', '1/4'], ['draw', rng.randrange(len(FORM_NAMES))]]
+            k1 = rng.randrange(len(rts[ctl]) + 1)
+            rts[ctl].insert(k1, ['save', 0, t])
+            k2 = rng.randrange(k1 + 1, len(rts[ctl]) + 1)
+            rts[ctl].insert(k2, ['restore', 0, t])
+            if ctl == t:
+                rts[t].insert(rng.randrange(k1 + 1, k2 + 1), ['draw', rng.randrange(len(FORM_NAMES))])
+                rts[t].append(['draw', rng.randrange(len(FORM_NAMES))])
         if single and rng.random() < 0.3:
             # defer(func, d, clock) = clock.sched(d, func) from a routine playing on that clock
             r = rng.randrange(n)
@@ -267,6 +282,9 @@ class Check(c05.Check):
         if rt is not None and (rt.get('error') or '').startswith('livelock'):
             self._livelock = getattr(self, '_livelock', set()) | {common.canon(case)}
             return {'what': 'RT: ' + rt['error'], 'signature': 'c10:rt-livelock'}
+        if nrt.get('rerun') and nrt['rerun'].get('error'):
+            return {'what': f'NRT second play after main.reset(): the library failed or hung: '
+                            f'{nrt["rerun"]["error"]}', 'signature': 'c10:error:nrt'}
         if nrt.get('error'):
             if 'infinity' in nrt['error'] and any(a[0] == 'yinf' for s in case['rts'] for a in s):
                 return {'what': 'NRT: a routine yielding inf is re-queued at time inf (real time never wakes it '
@@ -277,9 +295,10 @@ class Check(c05.Check):
                             'wakes it)', 'signature': 'c10:inf'}
         for mode, o in (('nrt', nrt), ('rt', rt), ('nrt replay', nrt.get('rerun')), ('rt replay', (rt or {}).get('rerun'))):
             if o is not None and o.get('draw_diag'):
-                return {'what': f'{mode}: a builtin random function did not read exactly the one generator of the '
-                                f'calling routine: {o["draw_diag"][0]} (M = the main thread\'s generator)',
-                        'signature': 'c10:rgen:wrong-generator'}
+                return {'what': f'{mode}: random-generator isolation broken (a draw must read exactly the calling '
+                                f'routine\'s generator; rand_state is the state of the routine\'s own generator; a value '
+                                f'is a function of seed and history): {o["draw_diag"][0]} (M = the main thread\'s '
+                                f'generator)', 'signature': 'c10:rgen:wrong-generator'}
         # determinism: two fresh NRT processes
         if (out['nrt2']['raw_sha1'] != nrt['raw_sha1'] or out['nrt2']['trace'] != nrt['trace']
                 or out['nrt2']['draw_values'] != nrt['draw_values'] or out['nrt2']['rerun'] != self.rerun_key(nrt)):
@@ -298,6 +317,8 @@ class Check(c05.Check):
             if o.get('rerun'):
                 plays.append((2, parse_trace(o['rerun']['trace'])[0]))
             seen, loose = {}, False
+            if any(a[0] == 'restore' for sc in case['rts'] for a in sc):
+                plays = []       # a restored rand_state moves a generator on purpose: model comparison + value law
             for play, evs in plays:
               per_r = {}
               for p in evs:
